@@ -78,7 +78,10 @@ def write_csep(path, ev, r, header):
         for i, e in enumerate(ev):
             t = e["t"]
             frac = t.microsecond != 0 or r.uniform() < 0.5
-            ts = t.strftime("%Y-%m-%dT%H:%M:%S") + (".%06d" % t.microsecond if frac else "")
+            digits = "%06d" % t.microsecond
+            if frac and r.uniform() < 0.5:
+                digits = digits.rstrip("0") or "0"            # 1-6 fraction digits: .5, .25, .125 are the same instants as .500000 ...
+            ts = t.strftime("%Y-%m-%dT%H:%M:%S") + ("." + digits if frac else "")
             w.writerow([repr(e["lon"]), repr(e["lat"]), repr(e["mag"]), ts, repr(e["depth"]), 7, "id%d" % i])
             m = ms_of(t)
             exp.append((m, m, e["lat"], e["lon"], e["depth"], e["mag"]))
@@ -205,6 +208,13 @@ def ex_file(ctx, fmt, n, seed, variant=0):
             exp = write_horus(path, ev, r)
         else:
             exp = write_ndk(path, ev, r)
+        if variant >= 2 and seed % 2:
+            with open(path, "rb") as f_:
+                raw_ = f_.read()
+            if raw_.endswith(b"\n"):
+                with open(path, "wb") as f_:
+                    f_.write(raw_[:-1])           # no newline after the last record
+            tags["no_final_newline"] = True
         ok, cat, tb = ctx.call(csep.load_catalog, path, type=fmt)
         ctx.mon("decode:" + fmt, 1)
         ctx.count(1)
